@@ -21,7 +21,7 @@ def run(pid, tier, seed):
     q = tier == "quick"
     exe = vlib.build_harness("seqs", ["seqs.cxx"])
     exe_asan = vlib.build_harness("seqs", ["seqs.cxx"], cfg="asan")
-    tdir = os.path.join(vlib.BUILD, "traces")
+    tdir = vlib.trace_dir()
     os.makedirs(tdir, exist_ok=True)
     tps = []
     for name, e in (("plain", exe), ("asan", exe_asan)):
